@@ -137,7 +137,7 @@ fn check_llr(c: &LlrCase, p: &mut Probe) -> Check {
     }
     // both public constructors of the demodulators, alternating with the case
     let via_new = c.re.0.to_bits() & 1 == 1;
-    let l = guarded(|| if via_new { Psk8Demodulator::new(sigma).demodulate(&[y]) } else { Psk8Demodulator::from_noise_sigma(sigma).demodulate(&[y]) }).map_err(|e| Fail::new("panic", format!("8PSK demodulate panicked: {e}")))?;
+    let l = guarded(|| if via_new { Psk8Demodulator::new(sigma).clone().demodulate(&[y]) } else { Psk8Demodulator::from_noise_sigma(sigma).demodulate(&[y]) }).map_err(|e| Fail::new("panic", format!("8PSK demodulate panicked: {e}")))?;
     ensure!(l.len() == 3, "llr-count", "one symbol gives {} LLRs", l.len());
     let tol = 64.0 * f64::EPSILON * (rmag * sc + 1.0);
     let mut soft = false;
@@ -150,7 +150,7 @@ fn check_llr(c: &LlrCase, p: &mut Probe) -> Check {
             soft = true;
         }
     }
-    let lb = if via_new { BpskDemodulator::new(sigma).demodulate(&[y.re]) } else { BpskDemodulator::from_noise_sigma(sigma).demodulate(&[y.re]) };
+    let lb = if via_new { BpskDemodulator::new(sigma).demodulate(&[y.re]) } else { BpskDemodulator::from_noise_sigma(sigma).clone().demodulate(&[y.re]) };
     ensure!(lb.len() == 1, "llr-count", "BPSK: one symbol gives {} LLRs", lb.len());
     let want = -2.0 * y.re * sc;
     ensure!((lb[0] - want).abs() <= 4.0 * f64::EPSILON * want.abs(), "bpsk-llr", "BPSK LLR at r = {}, sigma = {sigma:e}: {} but -2r/sigma^2 = {want}", y.re, lb[0]);
@@ -239,6 +239,8 @@ fn check_seq(c: &SeqCase, p: &mut Probe) -> Check {
         z + Complex::new(unit(a), unit(b)) * (3.0 * sigma).min(50.0)
     }).collect();
     let dem = if c.salt & 4 == 4 { Psk8Demodulator::new(sigma) } else { Psk8Demodulator::from_noise_sigma(sigma) };
+    // a quarter of the cases work on a clone of the object built (both types are Clone)
+    let dem = if c.salt & 0x300 == 0x100 { dem.clone() } else { dem };
     let ln = guarded(|| dem.demodulate(&noisy)).map_err(|e| Fail::new("panic", format!("8PSK demodulate panicked: {e}")))?;
     ensure!(ln.len() == 3 * noisy.len(), "llr-count", "{} symbols give {} LLRs", noisy.len(), ln.len());
     let sc = 1.0 / (sigma * sigma);
@@ -261,6 +263,8 @@ fn check_seq(c: &SeqCase, p: &mut Probe) -> Check {
     let s = guarded(|| with_layout(&gbits, GF2::one(), lay, |v| if c.salt & 2 == 2 { BpskModulator::default().modulate(&v) } else { BpskModulator::new().modulate(&v) })).map_err(|e| Fail::new("panic", format!("BPSK modulate panicked (bit array layout {}): {e}", layout_name(lay))))?;
     ensure!(s.len() == c.bits.len() && s.iter().zip(&c.bits).all(|(x, &b)| *x == if b == 1 { 1.0 } else { -1.0 }), "bpsk-map", "BPSK modulator maps {} to {} (bit array layout {})", sh(&c.bits), sh(&s.to_vec()), layout_name(lay));
     let bd = if c.salt & 8 == 8 { BpskDemodulator::new(sigma) } else { BpskDemodulator::from_noise_sigma(sigma) };
+    let bd = if c.salt & 0x300 == 0x100 { bd.clone() } else { bd };
+    p.class_if(c.salt & 0x300 == 0x100, "demodulators-cloned");
     let l = bd.demodulate(&s);
     let hd: Vec<u8> = l.iter().map(|&x| u8::from(x <= 0.0)).collect();
     ensure!(hd == c.bits, "bpsk-roundtrip", "BPSK hard decisions {} differ from the bits {}", sh(&hd), sh(&c.bits));
@@ -302,7 +306,7 @@ pub fn property() -> Property {
             }),
             Box::new(Sub {
                 name: "roundtrip",
-                rule: "bit sequences of 0..39 symbols (one in 25: 40..699 symbols, one in 300: more than 2^16 bits): every symbol equals the own mapping of its three bits in order (bit order within a symbol), hard decisions (LLR <= 0 -> 1) of the demodulated noiseless symbols return the sequence for any sigma, for 8PSK and BPSK; a bit count that is not a multiple of 3 makes the 8PSK modulator panic (documented) or, if it returns, loses no bit; modulators built by new() or Default::default(); the bit array is handed to the modulators in six memory layouts (owned, reversed view, strided views, offset sub-range); the whole sequence plus bounded pseudo-noise is demodulated in one call and every LLR compared with the own exact posterior log-ratio of its sample (8PSK: 64 eps (|r|/sigma^2 + 1), BPSK: 4 eps relative), and the same demodulator object on the tail of the slice returns bit-identical values; non-trivial = at least two symbols",
+                rule: "bit sequences of 0..39 symbols (one in 25: 40..699 symbols, one in 300: more than 2^16 bits): every symbol equals the own mapping of its three bits in order (bit order within a symbol), hard decisions (LLR <= 0 -> 1) of the demodulated noiseless symbols return the sequence for any sigma, for 8PSK and BPSK; a bit count that is not a multiple of 3 makes the 8PSK modulator panic (documented) or, if it returns, loses no bit; modulators built by new() or Default::default(); the bit array is handed to the modulators in six memory layouts (owned, reversed view, strided views, offset sub-range); the whole sequence plus bounded pseudo-noise is demodulated in one call and every LLR compared with the own exact posterior log-ratio of its sample (8PSK: 64 eps (|r|/sigma^2 + 1), BPSK: 4 eps relative), and the same demodulator object (in a quarter of the cases a clone of the one built) on the tail of the slice returns bit-identical values; non-trivial = at least two symbols",
                 cases: |t| t.pick(300_000, 10_000_000),
                 strategy: seq_strategy,
                 check: check_seq,
